@@ -131,17 +131,20 @@ _obligations_base = obligations
 def h1_obligations(tier):
     quick = tier == "quick"
     obls = []
-    # kills: fmtqfn.c `++len` dropped (length for s==0 one short of what is written); `id % auto_split` -> `id / auto_split`;
-    #        `i = fmt_str(s,"/"); len += i` -> len not advanced; `if (s) *s++ = 0` dropped (no terminator);
-    #        fmt_ulong.c `while (q > 9)` -> `while (q > 10)` (announced length short for 10, 100, ..)
+    # kills (fmtqfn_names; each VIOLATION with a reproducing native replay):
+    #   fmtqfn.c `if (s) *s++ = 0; ++len;` -> `++len` dropped (returned length one short of the terminator) and -> `if (s) { *s++ = 0; ++len; }`
+    #   (length announced for s == 0 one short of what is written: qmail-queue's fnnum() would alloc one byte too few);
+    #   `id % auto_split` -> `id / auto_split`;  `i = fmt_str(s,"/"); len += i` -> `len += i` dropped;
+    #   `id % auto_split` -> `(unsigned int) id % auto_split` (seen only by the ABS=1 SPLIT=3 point: needs an id >= 2^32);
+    #   fmt_ulong.c `while (q > 9)` -> `while (q > 10)` (10 is written starting one byte before the buffer)
     obls.append(Obl("fmtqfn_names", "fmtqfn.c",
         progs=[Prog("fmt_ulong.c", cut=["fmt_ulong"], link=True)],      # ABS=0: harness passes straight through to the real one
         repo=["fmtqfn.c", "fmt_str.c", "auto_split.c"],
         grid=([{"ABS": 0, "SPLIT": 23, "DIG": 4, "DL": 5}, {"ABS": 0, "SPLIT": 1, "DIG": 4, "DL": 7}, {"ABS": 0, "SPLIT": 2, "DIG": 4, "DL": 0},
-               {"ABS": 0, "SPLIT": 23, "DIG": 5, "DL": 10}, {"ABS": 1, "SPLIT": 0, "DIG": 20, "DL": 7}, {"ABS": 1, "SPLIT": 23, "DIG": 20, "DL": 10}]
+               {"ABS": 0, "SPLIT": 23, "DIG": 5, "DL": 10}, {"ABS": 1, "SPLIT": 2, "DIG": 20, "DL": 10}, {"ABS": 1, "SPLIT": 3, "DIG": 20, "DL": 7}]
               if quick else
               [{"ABS": 0, "SPLIT": s, "DIG": d, "DL": l} for (s, d, l) in ((23, 4, 5), (1, 4, 7), (2, 4, 0), (3, 5, 6), (23, 5, 10), (23, 6, 5), (2, 7, 7), (23, 7, 5))]
-              + [{"ABS": 1, "SPLIT": s, "DIG": 20, "DL": l} for (s, l) in ((0, 7), (0, 0), (23, 10), (1, 5))]),
+              + [{"ABS": 1, "SPLIT": s, "DIG": 20, "DL": l} for (s, l) in ((2, 10), (1, 0), (3, 7), (23, 5))]),   # odd SPLIT: 64-bit divider equivalence, 100-400 s
         unwind=lambda p: {"fmt_ulong_real": p["DIG"] + 1, "fmt_ulong": 21, "fmt_str": p["DL"] + 2, "ref_number": min(p["DIG"] + 2, 22), "ref_ndigits": 21},
         unwind_default=50, backend="cadical", timeout=600 if quick else 2400,
         functions=["fmtqfn.c:fmtqfn", "fmt_ulong.c:fmt_ulong (ABS=0)", "fmt_str.c:fmt_str"],
@@ -154,6 +157,76 @@ def h1_obligations(tier):
         claim="C02/C03 (file naming): fmtqfn writes dirslash ++ [decimal(id mod split) ++ '/'] ++ decimal(id) ++ NUL in canonical decimal, "
               "returns the number of bytes written, the same number for s == 0, never more than FMTQFN, and touches nothing beyond it",
         expect_witnesses=lambda p: ["split_name", "split_name_wrapped", "flat_name"] + (["split_of_a_64_bit_number"] if p["ABS"] else [])))
+    # kills (readsubdir_scan; each VIOLATION with a reproducing native replay):
+    #   readsubdir.c `if (!len || d->d_name[len]) return -2` -> `if (!len) return -2` ("12a" handed out as 12);
+    #   `while (!(rs->dir = opendir(..))) rs->pause(..)` -> `if (..) rs->pause(..)` (subdirectory skipped after one failed opendir);
+    #   same loop without the pause call (busy retry);  `rs->pos >= auto_split` -> `>= auto_split - 1` (last subdirectory forgotten) and -> `>` (opens <dir>/<split>);
+    #   closedir dropped at the end of a subdirectory (stream leak);  fmt_ulong(.., rs->pos) -> rs->pos + 1;  `return -2` -> `return 0` (scan ends at the first stray file);
+    #   scan_ulong.c `< 10` -> `<= 10` (':' taken as a digit)
+    # not killed: deleting the `str_equal(d->d_name,".")` test - equivalent, "." has no digits and falls into the -2 exit
+    DIRSYS = ["opendir", "readdir", "closedir"]
+    dgrid = ([{"SPLIT": 2, "K": 3, "NL": 3, "OF": 1}, {"SPLIT": 3, "K": 2, "NL": 2, "OF": 2}, {"SPLIT": 1, "K": 4, "NL": 4, "OF": 0}] if quick else
+             [{"SPLIT": 2, "K": 3, "NL": 3, "OF": 1}, {"SPLIT": 3, "K": 2, "NL": 2, "OF": 2}, {"SPLIT": 1, "K": 4, "NL": 4, "OF": 0},
+              {"SPLIT": 2, "K": 4, "NL": 4, "OF": 1}, {"SPLIT": 3, "K": 3, "NL": 3, "OF": 1}, {"SPLIT": 4, "K": 2, "NL": 3, "OF": 1},
+              {"SPLIT": 7, "K": 1, "NL": 2, "OF": 1}])       # the real conf-split (23) does not close: no verdict in 600 s, 2.4 GB
+    obls.append(Obl("readsubdir_scan", "rsd_scan.c",
+        repo=["readsubdir.c", "scan_ulong.c", "fmt_ulong.c", "fmt_str.c", "auto_split.c"], sysrename=DIRSYS,
+        grid=dgrid,
+        unwind=lambda p: {"readsubdir_next": p["OF"] + 2, "scan_ulong": p["NL"] + 2, "fmt_ulong": 3, "fmt_str": 6,
+                          "vmain": p["SPLIT"] * (p["K"] + 2) + 3},
+        unwind_default=lambda p: max(24, p["SPLIT"] * p["K"] * (p["NL"] + 1) + 2, p["SPLIT"] * (p["K"] + 2) + 3), timeout=600,
+        functions=["readsubdir.c:readsubdir_init", "readsubdir.c:readsubdir_next", "scan_ulong.c:scan_ulong"],
+        stubs=["opendir/readdir/closedir: harness/C03/dirmodel.h - SPLIT subdirectories of 0..K entries each, every name byte symbolic (NL bytes), "
+               "each opendir fails 0..OF times before it succeeds"],
+        assumes=["directory name 'mess' (concrete, <= READSUBDIR_NAMELEN); entry names non-empty, at most NL bytes; readdir does not fail half way",
+                 "contract assumed for a failing opendir: pause callback, then retry, never skip"],
+        outside=["names longer than NL bytes (numbers overflowing 64 bits), more than K entries per subdirectory, auto_split other than 1..4"],
+        claim="C03/C02/C04 (restart, cleanup scan): every subdirectory 0..split-1 is opened (retrying after a pause when opendir fails), read to its end and closed; "
+              "every entry whose name is a decimal number is handed out exactly once with that value, no other entry ('.', '..', dot files, mixed names) "
+              "yields a number, nothing is invented or repeated, and the scan ends with 0",
+        expect_witnesses=lambda p: ["number_handed_out", "all_entries_numbers", "dot_name_skipped", "other_name_skipped", "empty_subdirectory", "scan_complete"]
+                         + (["opendir_failed_paused_retried"] if p["OF"] else [])))
+    # kills (pqstart_all): qmail-send.c pqstart `if (x > 0)` -> `if (x >= -1)` (pqadd for "." / for the open step, stale id) and -> `if (x != -1)` (stray files scheduled);
+    #   `while ((x = readsubdir_next(..)))` -> `while ((x = ..) > 0)` (scan stops at the first non-message);  "info" -> "mess";
+    #   readsubdir.c skip-after-failed-opendir and last-subdirectory-forgotten (as above)
+    obls.append(Obl("pqstart_all", "pqstart.c",
+        progs=[Prog("qmail-send.c", nomain=True, cut=["pqadd"])],
+        repo=["readsubdir.c", "scan_ulong.c", "fmt_ulong.c", "fmt_str.c", "auto_split.c"], sysrename=DIRSYS,
+        grid=dgrid,
+        unwind=lambda p: {"readsubdir_next": p["OF"] + 2, "scan_ulong": p["NL"] + 2, "fmt_ulong": 3, "fmt_str": 6,
+                          "pqstart": p["SPLIT"] * (p["K"] + 2) + 3},
+        unwind_default=lambda p: max(24, p["SPLIT"] * p["K"] * (p["NL"] + 1) + 2), timeout=600,
+        functions=["qmail-send.c:pqstart", "readsubdir.c:readsubdir_init", "readsubdir.c:readsubdir_next", "scan_ulong.c:scan_ulong"],
+        cuts=["pqadd -> observed (obligation pqadd decides what happens with each number)", "pausedir -> the model's pause callback"],
+        stubs=["opendir/readdir/closedir: harness/C03/dirmodel.h over 'info' (see readsubdir_scan)"],
+        assumes=["as readsubdir_scan"],
+        outside=["as readsubdir_scan"],
+        claim="C03 (restart): pqstart calls pqadd exactly once for every numbered file of info/0 .. info/<split-1>, with that number, and for nothing else, "
+              "whatever else lies in those directories and however often opendir fails first",
+        expect_witnesses=lambda p: ["message_scheduled", "all_entries_messages", "nothing_to_schedule", "dot_name_skipped", "other_name_skipped", "restart_scan_complete"]
+                         + (["opendir_failed_paused_retried"] if p["OF"] else [])))
+    # kills (todo_scan_names): qmail-send.c todo_do `if (!len || dent->d_name[len]) return` -> `if (!len) return` ("12a" preprocessed as 12);
+    #   fnmake_mess flagsplit 1 -> 0 (mess/N instead of mess/<N mod split>/N);  fnmake_todo flagsplit 0 -> 1;  `if (fd != -1) close(fd)` dropped at fail: (descriptor leak);
+    #   `tododir = 0` dropped after closedir (closed stream used again);  scan_ulong.c `< 10` -> `<= 10`
+    # not killed: deleting the `str_equal(dent->d_name,".")` test - equivalent (no digits -> len == 0 -> return)
+    obls.append(Obl("todo_scan_names", "todo_names.c",
+        progs=[Prog("qmail-send.c", nomain=True)],
+        repo=["fmtqfn.c", "fmt_ulong.c", "fmt_str.c", "auto_split.c", "open_read.c", "scan_ulong.c"], lib=["arena_stralloc.c"],
+        defines={"ARENA_CAP": 64, "ARENA_SLOTS": 4},
+        sysrename=["open", "close", "stat", "unlink", "readdir", "closedir", "opendir", "time"],
+        grid=([{"NL": 3, "SPLIT": 23}, {"NL": 4, "SPLIT": 2}] if quick else [{"NL": 3, "SPLIT": 23}, {"NL": 4, "SPLIT": 2}, {"NL": 4, "SPLIT": 23}, {"NL": 5, "SPLIT": 3}]),
+        unwind=lambda p: {"scan_ulong": p["NL"] + 2, "fmt_ulong": p["NL"] + 1, "fmt_str": 7, "same": 18 + p["NL"]},
+        unwind_default=lambda p: 24 + p["NL"], backend="cadical", timeout=600,
+        functions=["qmail-send.c:todo_do (up to its first failure exit)", "qmail-send.c:fnmake_todo", "qmail-send.c:fnmake_mess", "fmtqfn.c:fmtqfn", "scan_ulong.c:scan_ulong", "open_read.c"],
+        cuts=["trigger_*, log* -> no-ops", "prioq_insert -> must not be reached"],
+        stubs=["readdir: one entry with NL symbolic name bytes, or the end of the directory; open(todo/N) succeeds or fails; stat(mess/..) always fails (EIO)"],
+        assumes=["directory stream already open; entry name non-empty, at most NL bytes; auto_split = SPLIT"],
+        outside=["names longer than NL bytes (numbers that overflow 64 bits wrap in scan_ulong); what preprocessing does after mess/.. was examined (obligation todo_do, fixed name)"],
+        claim="C03/C02 (which todo entries are messages): a canonical decimal name N is preprocessed as message N (todo/N opened once, mess/<N mod split>/N examined); "
+              "'.', '..', dot files and every name that is not entirely digits touch nothing; a digits-with-leading-zeros name is either ignored or taken by value; "
+              "the envelope descriptor is closed on the failure exit",
+        expect_witnesses=["end_of_directory", "number_preprocessed", "open_failed_left_for_next_scan", "number_beyond_split", "leading_zero_name_taken_by_value",
+                          "dot_name_skipped", "other_name_skipped"]))
     return obls
 
 
